@@ -698,7 +698,30 @@ pub fn gen_program(t: &mut Tape, cfg: &GenCfg) -> Program {
     }
     let ntx = 1 + t.index(cfg.max_txs.max(1));
     for k in 0..ntx {
-        let tx = gen_tx(t, cfg, &mut p, k);
+        let mut tx = gen_tx(t, cfg, &mut p, k);
+        // transactions of one protocol resemble each other: a later one may carry the first one's
+        // metadata entries - all of them, a prefix, or all plus one more (content-keyed memos of a
+        // compiler that serves both are then one comparison away from confusing them)
+        if k > 0 && (cfg.profile == Profile::Rich || cfg.profile == Profile::Boundary) && t.chance(1, 3) {
+            let base: Vec<(u64, MetaVal)> = p.txs[0].metadata.clone();
+            let literal = |v: &MetaVal| matches!(v, MetaVal::Str(_) | MetaVal::TimeSnap(_) | MetaVal::LongText(..) | MetaVal::Int(Q::Lit(_)));
+            if !base.is_empty() && base.iter().all(|(_, v)| literal(v)) {
+                let mut m = base.clone();
+                match t.draw(3) {
+                    0 => {
+                        m.truncate(1 + t.index(m.len()));
+                    }
+                    1 => m.push((m.last().map(|x| x.0).unwrap_or(0) + 1, MetaVal::Str("one more".into()))),
+                    _ => {}
+                }
+                tx.metadata = m;
+            } else if base.is_empty() && !tx.metadata.is_empty() && tx.metadata.iter().all(|(_, v)| literal(v)) && t.chance(1, 2) {
+                // or the other way round: the first transaction gets a prefix of this one's
+                let mut m = tx.metadata.clone();
+                m.truncate(1 + t.index(m.len()));
+                p.txs[0].metadata = m;
+            }
+        }
         p.txs.push(tx);
     }
     // one program in four is written with its declarations in another order
@@ -1242,6 +1265,9 @@ pub enum AmountDist {
     /// many UTxOs of almost the same value (change of one faucet, a batch payout): differences of
     /// a few units of the selector's logarithmic scale, i.e. near-ties that are not ties
     Cluster(i128),
+    /// a wallet of dust (1-3 ADA pieces) with one or two large UTxOs in it: more candidates than the
+    /// selection window, and a threshold only the large ones cover
+    DustAndFew,
 }
 
 pub struct LedgerCfg {
@@ -1251,6 +1277,9 @@ pub struct LedgerCfg {
     /// every UTxO gets a different lovelace amount (no equal-distance candidates, hence no
     /// hash-order tie-breaking in coin selection)
     pub distinct: bool,
+    /// C14 only: some UTxOs carry a datum that is an open expression (the datum of an input whose
+    /// query the UTxO itself satisfies, or any expression tree) - `arbitrary UTxO contents`
+    pub hostile_datums: bool,
 }
 
 pub fn draw_lovelace(t: &mut Tape, dist: &AmountDist) -> i128 {
@@ -1258,6 +1287,13 @@ pub fn draw_lovelace(t: &mut Tape, dist: &AmountDist) -> i128 {
         AmountDist::Small => t.draw(6) as i128 * 1_000_000,
         AmountDist::Comfortable => 50_000_000 + t.draw(950) as i128 * 1_000_000,
         AmountDist::Tight => *t.pick(&[2_000_000i128, 1_000_000, 3_000_000, 5_000_000, 2_200_000, 10_000_000, 12_000_000]),
+        AmountDist::DustAndFew => {
+            if t.draw(40) == 39 {
+                80_000_000 + t.draw(20) as i128 * 1_000_000
+            } else {
+                1_000_000 + t.draw(2_000) as i128 * 1_000
+            }
+        }
         AmountDist::Cluster(base) => {
             // one unit of the coin selector's log scale is a relative step of about 2e-8
             let unit = (*base / 48_000_000).max(1);
@@ -1365,6 +1401,39 @@ pub fn gen_ledger(t: &mut Tape, w: &mut crate::world::World, p: &Program, cfg: &
             }
         }
     }
+    if cfg.hostile_datums {
+        let names: Vec<String> = p.txs.iter().flat_map(|tx| tx.inputs.iter().map(|i| i.name.to_lowercase())).chain(std::iter::once("source".to_string())).collect();
+        let keys: Vec<RefKey> = w.chain.utxos.keys().cloned().collect();
+        for k in keys {
+            if !t.chance(2, 3) {
+                continue;
+            }
+            let addr = w.chain.utxos[&k].address.clone();
+            let d = if t.chance(2, 3) {
+                let q = tir::InputQuery {
+                    address: tir::Expression::Address(addr),
+                    min_amount: tir::Expression::None,
+                    r#ref: tir::Expression::None,
+                    many: false,
+                    collateral: false,
+                };
+                let name = names[t.index(names.len())].clone();
+                tir::Expression::EvalCoerce(Box::new(tir::Coerce::IntoDatum(tir::Expression::EvalParam(Box::new(tir::Param::ExpectInput(name, q))))))
+            } else {
+                let mut g = crate::gen_tir::TirGen {
+                    t: &mut *t,
+                    params: vec![],
+                    queries: Default::default(),
+                    inputs: vec![],
+                    closed: false,
+                };
+                g.expr(2)
+            };
+            if let Some(u) = w.chain.utxos.get_mut(&k) {
+                u.datum = Some(d);
+            }
+        }
+    }
     w.addr_pool = p.parties.iter().map(|x| x.addr.clone()).collect();
     let mut pool: Vec<Value> = vec![];
     for amt in [2_000_000i128, 50_000_000, 1_000_000] {
@@ -1443,6 +1512,11 @@ pub fn gen_args(t: &mut Tape, p: &Program, tx: &TxSpec, chain: &SimChain, dist: 
                             *t.pick(&[1000i128, 0, 50, 1 << 20])
                         } else if n.starts_with('n') || n.starts_with('k') {
                             *t.pick(&[1i128, 2, 3, 5, 0])
+                        } else if n.starts_with('q') && t.chance(1, 8) {
+                            // a threshold just below the largest single UTxO anybody holds: in a wallet of
+                            // dust only that one (or a very large set) covers it
+                            let big: i128 = chain.utxos.values().map(|u| u.value.get(&None).copied().unwrap_or(0)).max().unwrap_or(0);
+                            (big - 1_000_000 - t.draw(3) as i128 * 500_000).max(1)
                         } else if n.starts_with('q') && t.chance(1, 8) {
                             // a threshold that needs most of what the best-funded party holds: only a
                             // large set of UTxOs covers it
